@@ -274,6 +274,25 @@ def ncon_orders(ctx, quick):
                                   '(labels moved along): %r vs %r' % (swap, inds, sym, ferm, [t.n for t in ts], perms, str(oks[o0])[:120], str(r2)[:120]),
                                   dict(desc, perms=perms, variant=variant))
                     break
+        # a swap listed twice (in either orientation of the pair) cancels: the result is that of the list without the two entries, in every order
+        if oks:
+            import random as _random
+            lr = _random.Random(rep * 7919 + ctx.seed)
+            px, py = lr.choice(cand)
+            dup = [(px, py), (py, px) if lr.random() < 0.5 else (px, py)]
+            swap2 = list(swap)
+            for d_ in dup:
+                swap2.insert(lr.randint(0, len(swap2)), d_)
+            for o in lr.sample(sorted(oks), min(4, len(oks))):
+                try:
+                    r2 = ('ok', tgen.obs(yastn.ncon(ts, inds, order=o, swap=swap2)))
+                except (yastn.YastnError, AssertionError) as e:
+                    r2 = (type(e).__name__, str(e)[:80])
+                ctx.count('ncon_swap_listed_twice')
+                if r2 != oks[o]:
+                    ctx.violation('ncon on network %r (sym %s, fermionic %r, tensor charges %r, order %r): swaps %r give %s, but %r -- the same list with the pair %r entered twice -- gives %s' % (
+                        inds, sym, ferm, [t.n for t in ts], o, swap, str(oks[o])[:100], swap2, (px, py), str(r2)[:100]), dict(desc, what='listed-twice', swap2=swap2, order=list(o)))
+                    break
         vals = set(v[1] for v in oks.values())
         if len(vals) > 1:
             o1 = next(iter(oks))
